@@ -18,7 +18,7 @@ import importlib
 import numpy as np
 
 MODS = {"ml3": "spox.opset.ai.onnx.ml.v3", "ml4": "spox.opset.ai.onnx.ml.v4", "ml5": "spox.opset.ai.onnx.ml.v5",
-        "v17": "spox.opset.ai.onnx.v17", "v19": "spox.opset.ai.onnx.v19", "v21": "spox.opset.ai.onnx.v21"}
+        "v17": "spox.opset.ai.onnx.v17", "v20": "spox.opset.ai.onnx.v20", "v19": "spox.opset.ai.onnx.v19", "v21": "spox.opset.ai.onnx.v21"}
 
 
 def apply_mlop(step: dict, a: list) -> list:
@@ -51,10 +51,79 @@ def _vals(rng, dt, n, lo=-4, hi=9):
 TEMPLATES = ["scaler", "normalizer", "binarizer", "imputer", "linear_regressor", "array_feature_extractor",
              "tree_regressor", "linear_classifier", "label_encoder",
              "feature_vectorizer", "reduce_int", "mean_family", "arith_small", "unary_float", "matmul_int",
-             "cumsum_pow", "quantize", "pool_f64", "cast_chain", "random", "random"]
+             "cumsum_pow", "quantize", "pool_f64", "cast_chain", "random", "random", "string_chain", "string_chain", "string_chain"]
+
+
+def gen_string_chain(rng) -> list:
+    """Chains of >= 2 string operators over constants: StringConcat / StringSplit / StringNormalizer /
+    RegexFullMatch (v20), Gather / Concat / Where / Identity on string tensors, Cast to string. The reference
+    evaluator returns some string results as object arrays: the NEXT operator must still construct (it
+    constructs with propagation off), and every value must equal the runtime's."""
+    steps: list = []
+    # (no empty string: onnx.reference's StringSplit gives [['']] / 1 for it, onnxruntime [] / 0 - third-party)
+    words = ["foo", "bar", "Baz", "a b", "x", "ü", "c d e", "fo"]
+
+    def S(n):
+        steps.append({"op": "const", "how": "value", "dt": "str", "shape": [n], "data": [rng.choice(words) for _ in range(n)]})
+        return len(steps) - 1
+
+    def M(name, mod, fn, args, nout=1, **kw):
+        steps.append({"op": "mlop", "name": name, "mod": mod, "fn": fn, "args": args, "in_dt": "str", "kwargs": kw, "np_kwargs": [],
+                      "variadic": False, "nout": nout})
+        return nvars() - nout
+
+    def nvars():
+        return sum(st.get("nout", 2 if st["op"] in ("topk", "split") else 1) for st in steps)
+
+    n = rng.choice([1, 2, 3])
+    if rng.random() < 0.25:
+        steps.append({"op": "const", "how": "value", "dt": "f32", "shape": [n], "data": [rng.choice([1.5, 2.75, -0.25, 0.5]) for _ in range(n)]})  # (integral floats print differently: 2.0 vs 2, third-party)
+        steps.append({"op": "cast", "args": [0], "to": "str"})
+        cur = 1
+    else:
+        cur = S(n)
+    for _ in range(rng.choice([2, 2, 3, 4])):
+        o = rng.choice(["concat_s", "concat_s", "ident", "norm" if rng.random() < 0.3 else "ident", "gather", "where", "concat0", "split", "regex"])
+        if o == "concat_s":
+            c = S(n)
+            cur = M("StringConcat", "v20", "string_concat", [cur, c] if rng.random() < 0.7 else [c, cur])
+        elif o == "ident":
+            steps.append({"op": "identity", "args": [cur]})
+            cur = nvars() - 1
+        elif o == "norm":
+            cur = M("StringNormalizer", "v17", "string_normalizer", [cur], case_change_action=rng.choice(["UPPER", "LOWER"]))
+        elif o == "gather":
+            idx = [rng.randrange(n) for _ in range(n)]
+            steps.append({"op": "const", "how": "value", "dt": "i64", "shape": [n], "data": idx})
+            steps.append({"op": "gather", "args": [cur, nvars() - 1]})
+            cur = nvars() - 1
+        elif o == "where":
+            steps.append({"op": "const", "how": "value", "dt": "bool", "shape": [n], "data": [bool(rng.randrange(2)) for _ in range(n)]})
+            cnd = nvars() - 1
+            alt = S(n)
+            steps.append({"op": "where", "args": [cnd, cur, alt]})
+            cur = nvars() - 1
+        elif o == "concat0":
+            c = S(1)
+            steps.append({"op": "concat", "args": [cur, c]})
+            cur = nvars() - 1
+            n += 1
+        elif o == "split":
+            first = M("StringSplit", "v20", "string_split", [cur], nout=2, delimiter=rng.choice([None, " "]) or " ")
+            steps.append({"op": "identity", "args": [first]})
+            steps.append({"op": "identity", "args": [first + 1]})
+            return steps
+        else:
+            first = M("RegexFullMatch", "v20", "regex_full_match", [cur], pattern=rng.choice(["fo.*", ".*a.*", "x"]))
+            steps.append({"op": "identity", "args": [first]})
+            return steps
+    steps.append({"op": "identity", "args": [cur]})
+    return steps
 
 
 def gen_dtype_program(rng, template: str) -> list:
+    if template == "string_chain":
+        return gen_string_chain(rng)
     t = template
     steps: list = []
 
